@@ -44,9 +44,22 @@ func TestC01Snapshots(t *testing.T) {
 	dbTest(t, "C01", "TestC01Snapshots", ruleC01, profC01, Options{})
 }
 
-var profC03 = Profile{W: with(baseWeights(), map[int]int{opWriteFinished: 2, opCAS: 4, opCAD: 3, opQuery: 1}), Unlocked: true, TwoTxns: true}
+// graveyardCyclePreamble: a key is deleted while an iterator tracks the table,
+// the iterator is closed, the key re-inserted, a new iterator opened and the
+// key deleted again - the write operations go through every graveyard path.
+var graveyardCyclePreamble = []Op{
+	{K: opChanges}, {K: opCommit},
+	{K: opInsert, ID: []byte{'a'}}, {K: opCommit},
+	{K: opDelete, ID: []byte{'a'}}, {K: opCommit},
+	{K: opCloseIter},
+	{K: opInsert, ID: []byte{'a'}}, {K: opCommit},
+	{K: opChanges}, {K: opCommit},
+	{K: opDelete, ID: []byte{'a'}}, {K: opCommit},
+}
 
-const ruleC03 = "sequences of Insert/InsertWatch/Modify/Delete/DeleteAll/CompareAndSwap/CompareAndDelete (guards: current, stale, another object's, never issued; keys incl. empty and binary) grouped into committed and aborted transactions, plus writes aimed at a table the transaction does not hold and writes through a finished transaction; every return triple and error is compared with a map model, rejected operations must leave the transaction's view unchanged, reads in the transaction see its writes, commits/aborts are compared with the model. Non-trivial = a transaction of >=3 operations containing a rejected compare-and-* after a successful write; distinct by case encoding."
+var profC03 = Profile{Preambles: [][]Op{graveyardCyclePreamble}, W: with(baseWeights(), map[int]int{opWriteFinished: 2, opCAS: 4, opCAD: 3, opQuery: 1, opChanges: 2, opCloseIter: 2, opNext: 1}), Unlocked: true, TwoTxns: true}
+
+const ruleC03 = "sequences of Insert/InsertWatch/Modify/Delete/DeleteAll/CompareAndSwap/CompareAndDelete (guards: current, stale, another object's, never issued; keys incl. empty and binary) grouped into committed and aborted transactions, plus writes aimed at a table the transaction does not hold and writes through a finished transaction, with change iterators being created and closed in between (deleted objects move through the graveyard); every return triple and error is compared with a map model, rejected operations must leave the transaction's view unchanged, reads in the transaction see its writes, commits/aborts are compared with the model. Non-trivial = a transaction of >=3 operations containing a rejected compare-and-* after a successful write; distinct by case encoding."
 
 func TestC03WriteOps(t *testing.T) {
 	dbTest(t, "C03", "TestC03WriteOps", ruleC03, profC03, Options{})
